@@ -171,7 +171,17 @@ deriving Repr, DecidableEq
 structure Ctx where
   files : List FileInfo
   publicPath : List Nat    -- c.options.PublicPath
+  /-- `uint32(c.options.SourceMap)`: 0 None, 1 Inline, 2 LinkedWithComment, 3 ExternalWithoutComment,
+  4 InlineAndExternal -/
+  sourceMapMode : Nat := 0
+  /-- `uint32(c.options.LegalComments)`: 0 Inline, 1 None, 2 EndOfFile, 3 LinkedWithComment,
+  4 ExternalWithoutComment -/
+  legalMode : Nat := 0
 deriving Repr, DecidableEq
+
+/-- `SourceMapPieces.HasContent`: `len(Prefix)+len(Mappings)+len(Suffix) > 0` -/
+def SMPieces.hasContent (sm : SMPieces) : Bool :=
+  sm.pfx.length + sm.mappings.length + sm.sfx.length > 0
 
 /-- the string "file" -/
 def nsFile : List Nat := [102, 105, 108, 101]
@@ -224,7 +234,11 @@ def writes (ctx : Ctx) (c : Chunk) : Option (List (List Nat)) :=
       ++ wLP c.outputSourceMap.pfx
       ++ wLP c.outputSourceMap.mappings
       ++ wLP c.outputSourceMap.sfx
-      ++ (if c.externalLegalComments.length > 0 then wLP c.externalLegalComments else []))
+      -- "How the source map is attached … is appended to the chunk after this hash has been computed"
+      ++ (if c.outputSourceMap.hasContent then wU32 ctx.sourceMapMode else [])
+      ++ (if c.externalLegalComments.length > 0 then
+            wLP c.externalLegalComments ++ wU32 ctx.legalMode
+          else []))
 
 /-- all bytes fed to the hash -/
 def preimage (ctx : Ctx) (c : Chunk) : Option (List Nat) := (writes ctx c).map List.flatten
@@ -268,6 +282,69 @@ def b32encode : List Nat → List Nat
 def hashForFileName (hashBytes : List Nat) : Option (List Nat) :=
   let s := b32encode hashBytes
   if s.length < 8 then none else some (s.take 8)
+
+-- ---------------------------------------------------------------- the final chunk file (generateChunksInParallel)
+/-
+After the final hash and `chunk.finalRelPath` are known, `generateChunksInParallel` substitutes the final
+paths (`substituteFinalPaths`) and then APPENDS to the chunk, in this order, the link to the legal-comments
+file (`LegalCommentsLinkedWithComment`) and the source-map comment (`SourceMapLinkedWithComment`: URL of the
+.map file; `SourceMapInline` / `SourceMapInlineAndExternal`: the whole map as a data URL).  The strings that
+depend on the chunk's own final path are inputs (`OwnPaths`).
+-/
+def ascii (s : String) : List Nat := s.toList.map Char.toNat
+
+/-- `substituteFinalPaths`: "if intermediateOutput.pieces == nil { return intermediateOutput.joiner }",
+otherwise the loop modelled by `Pieces.substitute` -/
+def finalContents (pathOf : Kind → Nat → List Nat) : Out → List Nat
+  | .pieces ps => substitute pathOf ps
+  | .joiner b => b
+
+structure OwnPaths where
+  /-- `TrimPrefix(pathBetweenChunks(finalRelDir, finalRelPath + ".LEGAL.txt"), "./")` -/
+  legalImportPath : List Nat
+  /-- `url.URL{Path: TrimPrefix(pathBetweenChunks(finalRelDir, finalRelPath + ".map"), "./")}.EscapedPath()` -/
+  mapEscapedPath : List Nat
+  /-- `base64.StdEncoding.EncodeToString(chunk.outputSourceMap.Finalize(shifts))` -/
+  mapBase64 : List Nat
+deriving Repr, DecidableEq
+
+/-- `Joiner.EnsureNewlineAtEnd`: `if j.length > 0 && j.lastByte != '\n' { j.AddString("\n") }` -/
+def ensureNewlineAtEnd (j : List Nat) : List Nat :=
+  if j.length > 0 ∧ j.getLast? ≠ some 10 then j ++ [10] else j
+
+def commentPrefix : ChunkRepr → List Nat
+  | .js _ => ascii "//"
+  | .css => ascii "/*"
+
+def commentSuffix : ChunkRepr → List Nat
+  | .js _ => []
+  | .css => ascii " */"
+
+/-- "Generate the optional legal comments file for this chunk" — the part that changes the chunk itself -/
+def addLegalLink (ctx : Ctx) (c : Chunk) (own : OwnPaths) (j : List Nat) : List Nat :=
+  if c.externalLegalComments.length > 0 then
+    if ctx.legalMode = 3 then
+      ensureNewlineAtEnd j ++ ascii "/*! For license information please see " ++ own.legalImportPath
+        ++ ascii " */\n"
+    else j
+  else j
+
+/-- "Generate the optional source map for this chunk" — the part that changes the chunk itself -/
+def addSourceMapComment (ctx : Ctx) (c : Chunk) (own : OwnPaths) (j : List Nat) : List Nat :=
+  if ctx.sourceMapMode ≠ 0 ∧ c.outputSourceMap.hasContent = true then
+    if ctx.sourceMapMode = 2 then
+      ensureNewlineAtEnd j ++ commentPrefix c.repr ++ ascii "# sourceMappingURL=" ++ own.mapEscapedPath
+        ++ commentSuffix c.repr ++ [10]
+    else if ctx.sourceMapMode = 1 ∨ ctx.sourceMapMode = 4 then
+      ensureNewlineAtEnd j ++ commentPrefix c.repr
+        ++ ascii "# sourceMappingURL=data:application/json;base64," ++ own.mapBase64
+        ++ commentSuffix c.repr ++ [10]
+    else j
+  else j
+
+/-- `outputContents` of the chunk file -/
+def finalFile (ctx : Ctx) (c : Chunk) (pathOf : Kind → Nat → List Nat) (own : OwnPaths) : List Nat :=
+  addSourceMapComment ctx c own (addLegalLink ctx c own (finalContents pathOf c.out))
 
 -- ---------------------------------------------------------------- driver
 open Wire
@@ -317,7 +394,10 @@ def parseSM (s : String) : Option SMPieces :=
     pure { pfx := a, mappings := b, sfx := c }
   | _ => none
 
-def parseChunk (files repr tmpl pub out sm legal : String) : Option (Ctx × Chunk) := do
+def parseChunk (files repr tmpl pub out sm legal : String) (modes : String := "0,0") : Option (Ctx × Chunk) := do
+  let (smMode, legalMode) ← (match parseNatList modes with
+    | some [a, b] => some (a, b)
+    | _ => none)
   let files ← parseItems parseFile files
   let repr ← parseRepr repr
   let tmpl ← parseItems (parseHexUnits 2) tmpl
@@ -325,7 +405,7 @@ def parseChunk (files repr tmpl pub out sm legal : String) : Option (Ctx × Chun
   let out ← parseOut out
   let sm ← parseSM sm
   let legal ← parseHexUnits 2 legal
-  pure ({ files := files, publicPath := pub },
+  pure ({ files := files, publicPath := pub, sourceMapMode := smMode, legalMode := legalMode },
         { repr := repr, finalTemplate := tmpl, out := out, outputSourceMap := sm, externalLegalComments := legal })
 
 def showName (n : Option (List Nat)) : String :=
@@ -335,22 +415,33 @@ def showName (n : Option (List Nat)) : String :=
 
 def driver (args : List String) : String :=
   match args with
-  | ["iso", files, repr, tmpl, pub, out, sm, legal] =>
-    -- digest sent by generateIsolatedHash, then HashForFileName of it
-    match parseChunk files repr tmpl pub out sm legal with
+  | ["iso", files, repr, tmpl, pub, out, sm, legal, modes] =>
+    -- digest sent by generateIsolatedHash, then HashForFileName of it; modes = "<SourceMap>,<LegalComments>"
+    match parseChunk files repr tmpl pub out sm legal modes with
     | some (ctx, c) =>
       match isoHash ctx c with
       | some d => s!"{hexUnits 2 d} {showName (hashForFileName d)}"
       | none => "PANIC"
     | none => "bad-op"
-  | ["pre", files, repr, tmpl, pub, out, sm, legal] =>
+  | ["pre", files, repr, tmpl, pub, out, sm, legal, modes] =>
     -- the bytes fed to the hash (no real counterpart can be observed; for debugging a disagreement)
-    match parseChunk files repr tmpl pub out sm legal with
+    match parseChunk files repr tmpl pub out sm legal modes with
     | some (ctx, c) =>
       match preimage ctx c with
       | some b => hexUnits 2 b
       | none => "PANIC"
     | none => "bad-op"
+  | ["file", repr, modes, hasMap, hasLegal, body, legalPath, mapPath, mapB64] =>
+    -- the final chunk file: body (after path substitution) plus what generateChunksInParallel appends
+    match parseRepr repr, parseNatList modes, parseHexUnits 2 body, parseHexUnits 2 legalPath,
+          parseHexUnits 2 mapPath, parseHexUnits 2 mapB64 with
+    | some repr, some [smMode, legalMode], some body, some lp, some mp, some b64 =>
+      let ctx : Ctx := { files := [], publicPath := [], sourceMapMode := smMode, legalMode := legalMode }
+      let c : Chunk := { repr := repr, finalTemplate := [], out := .joiner body,
+                         outputSourceMap := if hasMap = "1" then ⟨[123], [], [125]⟩ else ⟨[], [], []⟩,
+                         externalLegalComments := if hasLegal = "1" then [47] else [] }
+      hexUnits 2 (finalFile ctx c (fun _ _ => []) ⟨lp, mp, b64⟩)
+    | _, _, _, _, _, _ => "bad-op"
   | ["xxh", ws] =>
     -- a digest fed by the given sequence of Write calls
     match parseItems (parseHexUnits 2) ws with
